@@ -1,21 +1,62 @@
 (** C11 — TLS listeners present the best matching current certificate
-    (cert/store.go, cert/source.go:95-152, cert/watch.go).  Statements, [exact],
-    [Print Assumptions] only. *)
-From Coq Require Import String List NArith.
+    (cert/store.go, cert/source.go:95-152, cert/watch.go, cert/load.go:109-157).
+    Statements, [exact], [Print Assumptions] only.
+    Outside these statements (see checks/C11.json): the Issuer fallback of
+    TLSConfig.GetCertificate (Vault PKI sources issue a certificate where the store has
+    none), names with non-ASCII letters that strings.ToLower changes, real sleeping time. *)
+From Coq Require Import String List NArith Sorted.
 From Fabio Require Import Lib.Outcome Lib.Bytes Model.CertStore Proofs.CertStore.
 Import ListNotations.
 Local Open Scope N_scope.
 
+(* ===== which certificate: exact name, else covering wildcard, else first / none ===== *)
+
+(* "A wildcard covers the name" is [covers s pat name]: same number of labels, the first
+   s >= 1 labels of the pattern are "*", the others are the name's.  The candidates the code
+   tries are exactly these patterns, in the order of the number of stars: *)
+Theorem C11_candidate_is_cover : forall name k,
+  (k < length (split_byte name 46))%nat -> covers (S k) (candidate (split_byte name 46) k) name.
+Proof. exact candidate_covers. Qed.
+Print Assumptions C11_candidate_is_cover.
+Theorem C11_cover_is_candidate : forall s pat name,
+  covers s pat name ->
+  (s - 1 < length (split_byte name 46))%nat /\ pat = candidate (split_byte name 46) (s - 1).
+Proof. exact covers_candidate. Qed.
+Print Assumptions C11_cover_is_candidate.
+
 (* For every certificate set, requested name and listener mode (the single-certificate
-   non-strict shortcut aside, see C11_single_nonstrict): the certificate chosen is the one
-   carrying the normalised requested name (the last loaded if several do), otherwise the
-   one carrying the most specific covering wildcard, otherwise the first certificate, or
-   none at all for a strict listener.  [selects] never mentions the index or the scan. *)
+   non-strict shortcut aside, see C11_single_nonstrict): the certificate chosen carries the
+   normalised requested name (the last loaded if several do), otherwise a wildcard that
+   covers it with the fewest stars, otherwise it is the first certificate, or none at all
+   for a strict listener.  [selects] mentions neither the index nor the scan. *)
 Theorem C11_get_cert_spec : forall certs sn strict,
   certs <> [] -> (strict = true \/ 2 <= length certs)%nat ->
   selects (folded certs) strict (normalize sn) (store_pick certs sn strict).
 Proof. exact get_cert_spec. Qed.
 Print Assumptions C11_get_cert_spec.
+Theorem C11_get_cert_spec_nonvacuous :
+  let certs := [[bs "a.com"]; [bs "b.com"; bs "*.b.com"]; [bs "*.*.c.com"]] in
+  certs <> [] /\ (true = true \/ 2 <= length certs)%nat /\ (false = true \/ 2 <= length certs)%nat /\
+  store_pick certs (bs "X.Y.C.com..") true = PCert 2 /\
+  store_pick certs (bs "w.B.com") false = PCert 1 /\
+  store_pick certs (bs "zzz") false = PCert 0 /\
+  store_pick certs (bs "zzz") true = PNone /\
+  covers 2 (bs "*.*.c.com") (normalize (bs "X.Y.C.com..")).
+Proof. exact get_cert_spec_nonvacuous. Qed.
+Print Assumptions C11_get_cert_spec_nonvacuous.
+
+(* The property's own wording ([presents]: a certificate with the name, else one with a
+   covering wildcard, else first / none) follows; it is what Check/C11.v evaluates on the
+   implementation's answers, through the boolean [presents_b]. *)
+Theorem C11_presents : forall certs sn strict,
+  certs <> [] -> (strict = true \/ 2 <= length certs)%nat ->
+  presents (folded certs) strict (normalize sn) (store_pick certs sn strict).
+Proof. exact store_pick_presents. Qed.
+Print Assumptions C11_presents.
+Theorem C11_check_spec_sound : forall certs sn strict p,
+  presents_b certs sn strict p = true -> presents (folded certs) strict (normalize sn) p.
+Proof. exact presents_b_sound. Qed.
+Print Assumptions C11_check_spec_sound.
 
 Theorem C11_single_nonstrict : forall c sn, store_pick [c] sn false = PCert 0.
 Proof. exact single_nonstrict. Qed.
@@ -33,12 +74,11 @@ Print Assumptions C11_empty_store_err.
 Theorem C11_strict_none : forall certs sn,
   store_pick certs sn true = PNone ->
   none_with (folded certs) (normalize sn) /\
-  forall k, (k < length (split_byte (normalize sn) 46))%nat ->
-            none_with (folded certs) (candidate (split_byte (normalize sn) 46) k).
+  forall s pat, covers s pat (normalize sn) -> none_with (folded certs) pat.
 Proof. exact strict_none. Qed.
 Print Assumptions C11_strict_none.
 
-(* requested names: any letter case, any number of trailing dots *)
+(* requested names: any (ASCII) letter case, any number of trailing dots *)
 Theorem C11_request_case_insensitive : forall a b, lower a = lower b -> normalize a = normalize b.
 Proof. exact normalize_case. Qed.
 Print Assumptions C11_request_case_insensitive.
@@ -46,7 +86,7 @@ Theorem C11_request_trailing_dots : forall sn k, normalize (sn ++ repeat 46 k) =
 Proof. exact normalize_trailing_dots. Qed.
 Print Assumptions C11_request_trailing_dots.
 
-(* F-C11-2 (repaired in /repo by a fix: commit): the index used to keep the certificate's own
+(* F-C11-2 (repaired in /repo by 64c758c): the index used to keep the certificate's own
    spelling, so a certificate whose name contains an upper-case letter was not found by its
    own name; [folded] in the theorems above is the repaired behaviour *)
 Theorem C11_upper_case_cert_name_refuted :
@@ -59,8 +99,41 @@ Theorem C11_upper_case_cert_name_found :
 Proof. exact upper_case_cert_name_found. Qed.
 Print Assumptions C11_upper_case_cert_name_found.
 
-(* Every interleaving of set replacements and handshakes: each handshake is answered from
-   exactly the set that was current when it loaded the store - never a mixture. *)
+(* ===== a handshake never sees a mixture of two sets ===== *)
+
+(* Over the steps that are atomic in the code - the updater prepares a value (certificates +
+   index), stores it; a handshake loads the store, then computes - and every interleaving of
+   any number of handshakes with set replacements: the answers are those of the abstract
+   machine that holds only certificate SETS, where a handshake is answered by the complete
+   index of the one set its load saw. *)
+Theorem C11_handshake_single_set_fine : forall sched,
+  run_fine mk_built fstate0 sched = run_abs astate0 sched.
+Proof. exact run_fine_single_set. Qed.
+Print Assumptions C11_handshake_single_set_fine.
+(* ... and that set is the initial one or one that was stored - never one only prepared *)
+Theorem C11_answers_from_one_stored_set : forall sched cur pend snaps p,
+  In p (run_abs (cur, pend, snaps) sched) ->
+  exists c n s, p = store_pick c n s /\
+    (c = cur \/ In c (map snd snaps) \/ In c (stored_sets pend sched)).
+Proof. exact run_abs_from_stored. Qed.
+Print Assumptions C11_answers_from_one_stored_set.
+Theorem C11_handshake_single_set_fine_example :
+  run_fine mk_built fstate0
+    [FBuild [[bs "a.com"%string]; [bs "b.com"%string]]; FStore; FLoad 0;
+     FBuild [[bs "b.com"%string]; [bs "a.com"%string]]; FLoad 1; FStore; FLoad 2;
+     FPick 0 (bs "b.com"%string) false; FPick 1 (bs "b.com"%string) true; FPick 2 (bs "b.com"%string) true]
+  = [PCert 1; PCert 1; PCert 0].
+Proof. exact run_fine_example. Qed.
+Print Assumptions C11_handshake_single_set_fine_example.
+(* The other order - store the value, then build its index - does not have the property. *)
+Theorem C11_store_before_build_refuted :
+  exists sched, run_fine mk_store_first fstate0 sched <> run_abs astate0 sched.
+Proof. exact store_before_build_refuted. Qed.
+Print Assumptions C11_store_before_build_refuted.
+
+(* Mechanism lemma (coarse actions: SetCertificates and a handshake each one step; [current]
+   follows the recursion of [run_store], so this says little by itself - it is what the
+   history theorems below are phrased with). *)
 Theorem C11_handshake_single_set : forall sched cur,
   run_store cur sched =
   map (fun h => match h with (k, n, s) => store_pick (current cur (firstn k sched)) n s end)
@@ -68,19 +141,118 @@ Theorem C11_handshake_single_set : forall sched cur,
 Proof. exact run_store_single_set. Qed.
 Print Assumptions C11_handshake_single_set.
 
-(* The reload loop, for every history of loads: what is published is exactly the good loads
-   that differ from the last published blocks, in order (so unusable material never
-   replaces or removes the working set) ... *)
+(* ===== loadCertificates: the order of the set, hence its first certificate ===== *)
+Theorem C11_load_sorted : forall m, StronglySorted file_le (fst (load_files m)).
+Proof. exact load_files_sorted. Qed.
+Print Assumptions C11_load_sorted.
+(* the first certificate of a loaded set is the one whose certificate file name is least *)
+Theorem C11_load_first_least : forall m f c rest bad,
+  load_files m = ((f, c) :: rest, bad) -> forall f' c', In (f', c') rest -> str_cmp f f' <> Gt.
+Proof. exact load_first_least. Qed.
+Print Assumptions C11_load_first_least.
+Theorem C11_load_sound : forall m cf c,
+  In (cf, c) (fst (load_files m)) -> usable_pair m (map fst m) cf c.
+Proof. exact load_files_sound. Qed.
+Print Assumptions C11_load_sound.
+Theorem C11_load_complete : forall m name cf kf,
+  snd (load_files m) = false -> In name (map fst m) -> classify name = Some (cf, kf) ->
+  exists c, In (cf, c) (fst (load_files m)).
+Proof. exact load_files_complete. Qed.
+Print Assumptions C11_load_complete.
+Theorem C11_load_error : forall m,
+  snd (load_files m) = true ->
+  exists name cf kf, In name (map fst m) /\ classify name = Some (cf, kf) /\ key_pair m cf kf = None.
+Proof. exact load_files_error. Qed.
+Print Assumptions C11_load_error.
+Theorem C11_load_no_pem_files : forall m,
+  (forall name, In name (map fst m) -> classify name = None) -> load_certificates m = ([], false).
+Proof. exact load_no_pem_files. Qed.
+Print Assumptions C11_load_no_pem_files.
+Theorem C11_load_example :
+  load_certificates
+    [(bs "b-key.pem", pf 1 None (Some 7)); (bs "z.pem", pf 2 (Some (9, [bs "z.com"])) (Some 9));
+     (bs "b-cert.pem", pf 3 (Some (7, [bs "b.com"])) None); (bs "README", pf 4 None None);
+     (bs "a-cert.pem", pf 5 (Some (7, [bs "a.com"])) None); (bs "a-key.pem", pf 1 None (Some 7))]
+  = ([[bs "a.com"]; [bs "b.com"]; [bs "z.com"]], false)
+  /\ load_certificates [(bs "a-key.pem", pf 1 None (Some 7))] = ([], true)
+  /\ load_certificates [(bs "README", pf 4 None None)] = ([], false)
+  /\ load_certificates [] = ([], false).
+Proof. exact load_example. Qed.
+Print Assumptions C11_load_example.
+
+(* ===== the reload loop and the store: histories of loads ===== *)
+
+(* A load is [usable] when loadFn returned no error and loadCertificates made at least one
+   certificate from it without an error.  For every load history of a periodic source,
+   watch loop -> channel -> SetCertificates composed: after every prefix of the history a
+   handshake is answered from the certificates of the LAST USABLE load of that prefix
+   ([last_good]: a fold that knows nothing of the loop's memory, its comparison of blocks or
+   its sleeps).  So a new set takes effect, and errors, unusable material and a source that
+   has nothing at the moment leave the working set where it is. *)
+Theorem C11_handshake_after_history : forall script n s,
+  run_store [] (e2e_actions watch_step false None script n s) =
+  map (fun k => store_pick (last_good [] (firstn (S k) script)) n s) (seq 0 (length script)).
+Proof. exact e2e_periodic_from_start. Qed.
+Print Assumptions C11_handshake_after_history.
+(* one-shot sources (refresh <= 0): the same, on the history cut after its first usable load *)
+Theorem C11_handshake_after_history_once : forall script cur n s,
+  run_store cur (e2e_actions watch_step true None script n s) =
+  map (fun k => store_pick (last_good cur (firstn (S k) (upto_first_good script))) n s)
+      (seq 0 (length (upto_first_good script))).
+Proof. exact e2e_once. Qed.
+Print Assumptions C11_handshake_after_history_once.
+Theorem C11_once_is_truncated_periodic : forall script,
+  watch_run watch_step true None script = watch_run watch_step false None (upto_first_good script).
+Proof. exact watch_run_once. Qed.
+Print Assumptions C11_once_is_truncated_periodic.
+Theorem C11_unusable_keeps_set : forall cur script l,
+  usable l = None -> last_good cur (script ++ [l]) = last_good cur script.
+Proof. exact unusable_keeps_set. Qed.
+Print Assumptions C11_unusable_keeps_set.
+(* once a usable load has happened, no later handshake is left without certificates *)
+Theorem C11_working_set_never_removed : forall script cur n s k,
+  (exists j, (j <= k)%nat /\ exists l, nth_error script j = Some l /\ usable l <> None) ->
+  (k < length script)%nat ->
+  nth k (run_store cur (e2e_actions watch_step false None script n s)) PNone <> PErrNoCerts.
+Proof. exact working_set_never_removed. Qed.
+Print Assumptions C11_working_set_never_removed.
+Theorem C11_history_example :
+  let script := [Loaded (Some orphan_key); Loaded (Some good_a); LoadErr; Loaded (Some []); Loaded (Some good_a)] in
+  run_store [] (e2e_actions watch_step false None script (bs "A.example.") true)
+    = [PErrNoCerts; PCert 0; PCert 0; PCert 0; PCert 0]
+  /\ watch_run watch_step false None script
+    = [ELoad; ESleep; ELoad; EPublish [[bs "a.example"]]; ELoad; ESleep; ELoad; ESleep; ELoad; ESleep]
+  /\ watch_run watch_step true None script = [ELoad; ESleep; ELoad; EPublish [[bs "a.example"]]].
+Proof. exact e2e_example. Qed.
+Print Assumptions C11_history_example.
+
+(* F-C11-3 (repaired in /repo by 887d762): the loop used to publish whatever
+   loadCertificates returned without an error - also nothing at all.  A source that had
+   no certificate files for a moment (empty directory, only a README) emptied the store:
+   every handshake failed with ErrNoCertsStored although a good set had been loaded.
+   [watch_step_unrepaired] is that loop; with [watch_step] the same history keeps the set. *)
+Theorem C11_empty_load_unpublishes_refuted :
+  exists script n s,
+    usable (nth 0 script LoadErr) <> None /\
+    run_store [] (e2e_actions watch_step_unrepaired false None script n s) = [PCert 0; PErrNoCerts; PErrNoCerts] /\
+    run_store [] (e2e_actions watch_step false None script n s) = [PCert 0; PCert 0; PCert 0].
+Proof. exact empty_load_unpublishes_refuted. Qed.
+Print Assumptions C11_empty_load_unpublishes_refuted.
+
+(* The loop alone: what is published is exactly the usable loads that differ from the last
+   published blocks, in order ... *)
 Theorem C11_publish_iff_new_good : forall script last,
   pubs (watch_run watch_step false last script) = published last script.
 Proof. exact watch_publishes. Qed.
 Print Assumptions C11_publish_iff_new_good.
-
+(* ... anything else publishes nothing, leaves the loop's memory alone and sleeps
+   (mechanism lemma about the loop's variable [last]; the store-level statement is
+   C11_handshake_after_history) *)
 Theorem C11_bad_never_unpublishes : forall once last l ev last' stop,
   watch_step once last l = (ev, last', stop) ->
   (forall set, In (EPublish set) ev ->
-     exists id, l = Blocks id (Some set) /\ last <> Some id /\ last' = Some id) /\
-  ((forall set, ~ In (EPublish set) ev) -> last' = last /\ stop = false).
+     exists next, l = Loaded next /\ same_blocks next last = false /\ usable l = Some set /\ last' = next) /\
+  ((forall set, ~ In (EPublish set) ev) -> last' = last /\ stop = false /\ ev = [ESleep]).
 Proof. exact watch_step_publish. Qed.
 Print Assumptions C11_bad_never_unpublishes.
 
@@ -90,7 +262,7 @@ Theorem C11_no_spin : forall once script last,
 Proof. exact watch_no_spin. Qed.
 Print Assumptions C11_no_spin.
 
-(* The loop before the repair (fix: commit in /repo) did spin on unusable material. *)
+(* F-C11-1: the loop before 2594210 did spin on unusable material. *)
 Theorem C11_spin_refuted :
   exists script, no_adjacent_loads (watch_run watch_step_spinning false None script) = false.
 Proof. exact watch_spinning_refuted. Qed.
